@@ -231,6 +231,17 @@ def kill_conds_on_assign(node, state):
                         ("cond", x, bool(v.value))}
                 if not isinstance(v.value, bool):
                     out.add(("cond", "%s == %s" % (x, unparse(v)), True))
+        elif isinstance(v, ast.Compare) and len(v.ops) == 1 and isinstance(
+                v.ops[0], (ast.Is, ast.IsNot)) and isinstance(
+                    v.comparators[0], ast.Constant) and \
+                v.comparators[0].value is None and isinstance(
+                    v.left, ast.Name) and v.left.id != x:
+            # flag = y is None, with what is known about y on this path
+            for b_ in (True, False):
+                if ("cond", "%s is None" % v.left.id, b_) in out:
+                    val_ = b_ if isinstance(v.ops[0], ast.Is) else not b_
+                    out |= {("cond", x, val_),
+                            ("cond", "%s is None" % x, False)}
         elif isinstance(v, ast.BinOp) and isinstance(
                 v.op, (ast.Add, ast.Sub, ast.Mult, ast.FloorDiv, ast.LShift,
                        ast.RShift, ast.BitAnd, ast.BitOr)):
